@@ -1,7 +1,7 @@
 SPECIFICATION Spec
 CONSTANTS
   Keyspaces = {"k1"}
-  MaxVer = 3
+  MaxVer = 2
   AbsentVers = {}
   NoTableVers = {}
   Plans <- PlansMeta2
@@ -10,8 +10,9 @@ CONSTANTS
   MaxRoute = 1
   PkFromPrepare = FALSE
   TakeAll = FALSE
+  KsFailureIsNotExist = FALSE
   DefectNoConnCached = FALSE
   Variant = "ok"
-INVARIANTS TypeOK NoStaleRead StaleHasPendingEvent FailedNotCached ErrorIsOwn SharedCache RouteFailedNotCached RouteSingleFlight RouteBounded RouteFromSchema
+INVARIANTS TypeOK NoStaleRead StaleHasPendingEvent FailedNotCached ErrorIsOwn NotExistOnlyIfAbsent SharedCache RouteFailedNotCached RouteSingleFlight RouteBounded RouteFromSchema
 CHECK_DEADLOCK FALSE
 
